@@ -224,7 +224,8 @@ impl T {
                     T::JsonBinary => ok(nm(&["JSONB"]) && no_args && plain),
                     T::Uuid => ok(nm(&["UUID"]) && no_args && plain),
                     T::Custom => ok(name == "CITEXT" && no_args),
-                    T::Enum => ok(name == "MOOD" && no_args && plain),
+                    // the name of the enumeration type is an identifier: one quoted-identifier token (C04)
+                    T::Enum => ok(name == "\"mood\"" && no_args && plain),
                     T::ArrayInt => ok(nm(&["INTEGER", "INT", "INT4"]) && no_args && p.array_dims == 1),
                     T::ArrayArrayText => ok(nm(&["TEXT"]) && no_args && p.array_dims == 2),
                     T::Vector(None) => ok(nm(&["VECTOR"]) && no_args && plain),
